@@ -31,6 +31,7 @@ package httpserver
 //	C11.old-generation-panic/<Kind>     panic in a request running on a generation some newer generation has inherited from
 //	C11.pipe.panic/<Kind>               panic in a request on a generation nobody inherited from yet
 //	C11.inherit-panic/<Kind>            Pipeline.Inherit panicked
+//	C11.kind-change-inherit-panic/<NewKind>  Pipeline.Inherit panicked for an update that keeps a filter's NAME and changes its KIND (to <NewKind>; the old kind is in the message)
 //	C11.old-generation-response/<Kind>  request on an inherited-from generation answered unlike that generation's twin
 //	C11.generation-response/<Kind>      request on the current generation answered unlike its twin (new generation does not serve the new spec)
 //	C11.pipe.close-panic/<Kind>         closing the last generation panicked
@@ -186,6 +187,7 @@ type c11PipeGen struct {
 	Jump    bool   `json:"jump,omitempty"`     // every result of the filter under test jumps to the post filter
 	Extra   bool   `json:"extra,omitempty"`    // a ResponseAdaptor between the filter under test and post
 	Resil   bool   `json:"resil,omitempty"`    // Proxy: retry + circuit breaker policies on the main pool
+	Kind    string `json:"kind,omitempty"`     // kind of the filter under test in this generation (empty: the scenario's kind); a generation may keep the NAME and change the KIND
 }
 
 type c11PipeSc struct {
@@ -214,8 +216,19 @@ func c11GenPipe(rng *sim.Rand) *c11PipeSc {
 	pSame := []float64{0.3, 0.6, 0.9}[rng.Intn(3)]
 	for i := 0; i < ng; i++ {
 		n := sc.Gens[len(sc.Gens)-1]
-		if !rng.Bool(pSame) {
+		if n.Kind == "" && !rng.Bool(pSame) {
 			n.V = rng.Intn(nv)
+		}
+		if rng.Bool(0.15) {
+			// same filter name, another kind
+			k := c11Kinds[rng.Intn(len(c11Kinds))]
+			if skip := os.Getenv("VERIF_C11_SKIP"); skip != "" && strings.Contains(skip, k) {
+				k = "Mock"
+			}
+			n.Kind = k
+			n.V = rng.Intn(c11NVariants[k])
+		} else if n.Kind != "" && !rng.Bool(pSame) {
+			n.V = rng.Intn(c11NVariants[n.Kind])
 		}
 		if rng.Bool(0.12) {
 			if n.FutName == "fut" {
@@ -616,16 +629,26 @@ func c11ExecPipe(r *sim.Run, sc *c11PipeSc) {
 	if !known || len(sc.Gens) == 0 || len(sc.Gens) > 8 || nreq == 0 {
 		return
 	}
+	_ = nv
+	kindOf := func(gi int) string {
+		if k := sc.Gens[gi].Kind; k != "" {
+			return k
+		}
+		return sc.Kind
+	}
+	anyProxy := false
 	for i := range sc.Gens {
 		g := &sc.Gens[i]
-		if g.V < 0 || g.V >= nv || (g.FutName != "fut" && g.FutName != "fut2") {
+		n, ok := c11NVariants[kindOf(i)]
+		if !ok || g.V < 0 || g.V >= n || (g.FutName != "fut" && g.FutName != "fut2") {
 			return
 		}
+		anyProxy = anyProxy || kindOf(i) == "Proxy"
 	}
 	hooks := &c11Hooks{run: r, life: map[string]int{}}
 	c11Cur = hooks
 	defer func() { c11Cur = nil }()
-	if kind == "Proxy" {
+	if anyProxy {
 		proxy.C11Track()
 		defer proxy.C11Release()
 		defer proxy.C11SetBackend(nil)
@@ -653,7 +676,7 @@ func c11ExecPipe(r *sim.Run, sc *c11PipeSc) {
 		return
 	}
 	backendCalls := map[string]int{}
-	if kind == "Proxy" {
+	if anyProxy {
 		proxy.C11SetBackend(c11ScriptedBackend(r, func(id string) { backendCalls[id]++ }))
 	}
 
@@ -662,12 +685,13 @@ func c11ExecPipe(r *sim.Run, sc *c11PipeSc) {
 	texts := make([]string, len(sc.Gens))
 	exp := make([]map[string]string, len(sc.Gens))
 	norm := func(s string, gi int) string {
-		if kind == "Proxy" {
+		if kindOf(gi) == "Proxy" {
 			return c11NormProxy(s, sc.Gens[gi].V)
 		}
 		return s
 	}
 	for gi := range sc.Gens {
+		kind := kindOf(gi)
 		texts[gi] = c11PipeText("p", kind, gi, &sc.Gens[gi], false)
 		sp, err := c11NewSpec(texts[gi])
 		if err != nil || sp == nil {
@@ -745,6 +769,9 @@ func c11ExecPipe(r *sim.Run, sc *c11PipeSc) {
 	m.reload(front, mapper)
 
 	hooks.park = func(id, role, tag string, gen, hold int, wait time.Duration) {
+		if gen < 0 || gen >= len(sc.Gens) {
+			return
+		}
 		before := started
 		for i := 0; i < hold && i < 8 && !r.Aborted(); i++ {
 			r.Yield("c11.park." + role)
@@ -753,7 +780,7 @@ func c11ExecPipe(r *sim.Run, sc *c11PipeSc) {
 			r.Sleep(wait)
 		}
 		if started > before && started > gen {
-			r.Probe("c11.pipe.inherit_while_parked_" + role + "/" + kind)
+			r.Probe("c11.pipe.inherit_while_parked_" + role + "/" + kindOf(gen))
 			if role == "pre" {
 				parkedPre[id] = true
 			}
@@ -773,7 +800,11 @@ func c11ExecPipe(r *sim.Run, sc *c11PipeSc) {
 			}
 			r.Sleep(time.Duration(gap) * time.Microsecond)
 			started = gi
-			r.Eventf("inherit g%d <- g%d starts (same fut spec: %v)", gi, gi-1, sc.Gens[gi].V == sc.Gens[gi-1].V && sc.Gens[gi].FutName == sc.Gens[gi-1].FutName)
+			kindChange := kindOf(gi) != kindOf(gi-1) && sc.Gens[gi].FutName == sc.Gens[gi-1].FutName
+			if kindChange {
+				r.Probe("c11.pipe.inherit_changes_kind_of_named_filter/" + kindOf(gi-1) + "->" + kindOf(gi))
+			}
+			r.Eventf("inherit g%d <- g%d starts (same fut spec: %v, kind %s -> %s)", gi, gi-1, sc.Gens[gi].V == sc.Gens[gi-1].V && sc.Gens[gi].FutName == sc.Gens[gi-1].FutName && kindOf(gi) == kindOf(gi-1), kindOf(gi-1), kindOf(gi))
 			n := &pipeline.Pipeline{}
 			var pv interface{}
 			var st string
@@ -786,7 +817,14 @@ func c11ExecPipe(r *sim.Run, sc *c11PipeSc) {
 				n.Inherit(specs[gi], cur, mapper)
 			}()
 			if pv != nil {
-				r.Violate("C11.inherit-panic/"+kind, "Pipeline.Inherit of generation %d from generation %d panicked: %v\n%s\nnew spec: %s\nold spec: %s", gi, gi-1, pv, st, texts[gi], texts[gi-1])
+				if kindChange {
+					r.Violate("C11.kind-change-inherit-panic/"+kindOf(gi), "the update keeps the filter name %q and changes its kind %s -> %s: Pipeline.Inherit of generation %d from generation %d panicked: %v\n%s\n"+
+						"code path: pipeline.go reload(): prev = previousGeneration.getFilter(spec.Name()) is looked up by NAME only and filter.Inherit(prev) is called although prev is of another kind; "+
+						"TrafficController.UpdatePipeline/ApplyPipeline (ObjectEntity.InheritWithRecovery) swallow the panic and store the half-built generation (no flow), the previous one is never closed\nnew spec: %s\nold spec: %s",
+						sc.Gens[gi].FutName, kindOf(gi-1), kindOf(gi), gi, gi-1, pv, st, texts[gi], texts[gi-1])
+					return
+				}
+				r.Violate("C11.inherit-panic/"+kindOf(gi), "Pipeline.Inherit of generation %d from generation %d panicked: %v\n%s\nnew spec: %s\nold spec: %s", gi, gi-1, pv, st, texts[gi], texts[gi-1])
 				return
 			}
 			cur, curGen = n, gi
@@ -816,6 +854,10 @@ func c11ExecPipe(r *sim.Run, sc *c11PipeSc) {
 				// pass a gate before touching the history
 				r.Yield("c11.pipe.after")
 				g, entered := held[id]
+				kind := sc.Kind
+				if entered {
+					kind = kindOf(g)
+				}
 				old := entered && started > g
 				if pv != nil {
 					fk := c11FilterOf(st)
@@ -885,7 +927,7 @@ func c11ExecPipe(r *sim.Run, sc *c11PipeSc) {
 	func() {
 		defer func() {
 			if p := recover(); p != nil {
-				r.Violate("C11.pipe.close-panic/"+kind, "closing generation %d panicked: %v\n%s", curGen, p, c11Stack())
+				r.Violate("C11.pipe.close-panic/"+kindOf(curGen), "closing generation %d panicked: %v\n%s", curGen, p, c11Stack())
 			}
 		}()
 		cur.Close()
